@@ -668,7 +668,16 @@ def _check_transform_scores(ctx, cls):
         return
     me = f.params[0] if f.params else "self"
     changing = {"cummax", "cummin", "cumsum", "cumprod", "clip", "abs", "round", "diff", "shift", "rolling", "fillna", "ffill", "bfill", "sort_values", "rank", "pct_change", "expanding", "ewm", "where", "mask", "add", "sub", "mul", "div", "iloc", "loc", "head", "tail", "drop", "dropna"}
-    for r in return_exprs(f):
+    assigned = {}
+    for n in ast.walk(f.node):
+        if isinstance(n, ast.Assign) and len(n.targets) == 1 and isinstance(n.targets[0], ast.Name):
+            assigned.setdefault(n.targets[0].id, []).append(n.value)
+    for r0 in return_exprs(f):
+        r = r0
+        hops = 0
+        while isinstance(r, ast.Name) and len(assigned.get(r.id, [])) == 1 and hops < 4:
+            r = assigned[r.id][0]  # a local that holds the value to be returned
+            hops += 1
         e = r
         while isinstance(e, ast.Call) and isinstance(e.func, ast.Attribute) and e.func.attr in ("copy", "rename") and not (e.func.attr == "rename" and not e.args and not e.keywords):
             e = e.func.value  # a copy / a renamed copy of the series holds the same values
